@@ -111,6 +111,20 @@ func CallGoMethodFunction(env *Zlisp, name string, args []Sexp) (Sexp, error) {
 					"Go: we don't handle double pointers", i-2)
 			}
 			//Q("converting to go '%#v' into -> %#v\n", args[i], va.Interface())
+			// the converter trusts that a top-level target was made for
+			// the record it is given (it is, by togo and for receivers).
+			// Here the target comes from the method's signature, so a
+			// record of another registered struct type has to be turned
+			// away first: its fields were copied by position into
+			// whatever the parameter's struct has there.
+			if rec, isRec := args[i].(*SexpHash); isRec && va.Type().Elem().Kind() == reflect.Struct {
+				if rt := GoStructRegistry.Lookup(rec.TypeName); rt != nil && rt.TypeCache != nil &&
+					rt.TypeCache.Kind() == reflect.Ptr && rt.TypeCache.Elem().Kind() == reflect.Struct &&
+					rt.TypeCache != va.Type() {
+					return SexpNull, fmt.Errorf("error converting %d-th argument to Go: "+
+						"a '%s' record (%v) is not a %v", i-2, rec.TypeName, rt.TypeCache, va.Type())
+				}
+			}
 			iface, err := SexpToGoStructs(args[i], va.Interface(), env, nil, 0, va.Interface())
 			if err != nil {
 				return SexpNull, fmt.Errorf("error converting %d-th "+
